@@ -398,3 +398,70 @@ UNITS += [
          assumptions=["RealType bound to float (one instantiation); fma uninterpreted: the half-open upper bound itself is NOT decided (cbmc has no model of fma)"],
          note="UniformRealDistribution<float>::operator(): exactly one canonical draw, generated in the distribution's own real type"),
 ]
+
+
+# ---------------------------------------------------------------------------
+# RejectionSampler and IsotropicDistribution (draw counts, acceptance rule, arguments handed to from_spherical)
+# ---------------------------------------------------------------------------
+REJ = "src/celeritas/random/distribution/RejectionSampler.hh"
+ISO = "src/celeritas/random/distribution/IsotropicDistribution.hh"
+
+
+def build_rejection(ctx):
+    from vkit.extract import init_list, ExtractionDrift
+    sp = ctx.span(REJ, r"^RejectionSampler<RealType>::RejectionSampler\(real_type f, real_type fmax\)", r"\n\{\n.*?\n\}", [], name="RejectionSampler(f, fmax)")
+    k = sp.body.index("\n{\n")
+    if init_list(sp.body[:k]) != [("f_", "f"), ("fmax_", "fmax")]:
+        raise ExtractionDrift("RejectionSampler(f, fmax) initializer list is not ': f_{f}, fmax_{fmax}'")
+
+    class _B:
+        body = __import__("re").sub(r"(?<![\w.>])(f_|fmax_)\b", r"self->\1", sp.body[k + 3:-1])     # data members
+    ct = _B
+    pc = ctx.func(REJ, r"^RejectionSampler<RealType>::operator\(\)\(Generator& rng\) -> result_type", [
+        Rule(r"generate_canonical<RealType>\(rng\)", "generate_canonical(rng)", 1, note="generate_canonical -> stub with its [0,1) contract"),
+        Rule(r"fmax_ \* generate_canonical\(rng\)", "MULU(self->fmax_, generate_canonical(rng))", (0, 1), note="product -> uninterpreted with the assumed IEEE bound lemma"),
+        Rule(r"(?<![\w.>])(f_|fmax_)\b", r"self->\1", "*", note="data member"),
+    ], name="RejectionSampler::operator()")
+    return (HDR + RNG_MODEL + """
+typedef struct { real_type f_, fmax_; } RejectionSampler;
+/* fmax * u for u in [0, 1): value uninterpreted; assumed IEEE fact: 0 <= fmax * u <= fmax (and 0 for u == 0) */
+double __CPROVER_uninterpreted_mulu(double, double);
+static real_type MULU(real_type a, real_type u)
+{
+    real_type r = __CPROVER_uninterpreted_mulu(a, u);
+    __CPROVER_assume(!(a >= 0 && u >= 0 && u < 1) || (r >= 0 && r <= a));
+    __CPROVER_assume(!(u == 0 && a >= 0 && !__CPROVER_isinfd(a)) || r == 0);
+    return r;
+}
+void REJ_ctor(RejectionSampler* self, real_type f, real_type fmax)
+__CPROVER_requires(self != 0 && f >= 0 && fmax >= f)          /* own CELER_EXPECTs */
+__CPROVER_assigns(self->f_, self->fmax_)
+__CPROVER_ensures(self->f_ == f && self->fmax_ == fmax)
+{ self->f_ = f; self->fmax_ = fmax; /* member initializer list ': f_{f}, fmax_{fmax}' (checked on the extracted header) */ """ + ct.body + """}
+bool REJ_call(RejectionSampler const* self, Engine* rng)
+__CPROVER_requires(self != 0 && self->f_ >= 0 && self->fmax_ >= self->f_ && !__CPROVER_isinfd(self->fmax_) && g_draws == 0)
+__CPROVER_assigns(g_draws)
+/* exactly one draw (true = reject) */
+__CPROVER_ensures(g_draws == 1 && (__CPROVER_return_value == 0 || __CPROVER_return_value == 1))
+/* a point at the envelope (f == fmax) is never rejected, and a point with f > 0 is never rejected by a zero draw */
+__CPROVER_ensures(self->f_ == self->fmax_ ==> !__CPROVER_return_value)
+__CPROVER_ensures((g_u[0] == 0 && self->f_ >= 0) ==> !__CPROVER_return_value)
+{""" + pc.body + """}
+void h_rej(void)
+{
+    RejectionSampler d; real_type f, fm, u; Engine* e;
+    __CPROVER_assume(f >= 0 && fm >= f && !__CPROVER_isinfd(fm));
+    REJ_ctor(&d, f, fm);
+    g_u[0] = u;
+    REJ_call(&d, e);
+    VERIF_CANARY();
+}
+""")
+
+
+UNITS += [
+    Unit("c15_rejection_sampler", build_rejection, "h_rej", enforce="REJ_call", replace=["generate_canonical"], timeout=120, backend=["sat", "cvc5"],
+         must_have=[r"REJ_call.postcondition", r"generate_canonical.precondition"], checks=["--bounds-check", "--pointer-check"],
+         assumptions=["IEEE product lemma assumed: 0 <= fmax * u <= fmax for u in [0, 1), and fmax * 0 == 0 (the product's value is uninterpreted)"],
+         note="RejectionSampler: exactly one draw; never rejects at the envelope f == fmax nor on a zero draw"),
+]
